@@ -391,6 +391,8 @@ type Runner struct {
 	R        *rec.Rand
 	Res      Result
 	Times    []OpTime
+	TokMem   TokenState
+	TokSql   TokenState
 }
 
 func NewRunner(seed uint64) (*Runner, error) {
@@ -439,6 +441,23 @@ func (rn *Runner) Do(op Op, full bool) {
 	case KindHorizon:
 		mo = ExecHorizon(rn.Mem, &op, rn.Times, &rn.Res.Probs)
 		so = ExecHorizon(rn.Sql, &op, rn.Times, &rn.Res.Probs)
+	case KindHorizonCmd:
+		// the backdating only exists on sqlite: for memory every op is as old as the clock says
+		sqlTimes := rn.Times
+		memTimes := make([]OpTime, len(rn.Times))
+		for i, t := range rn.Times {
+			t.Backdated = false
+			memTimes[i] = t
+		}
+		mo = ExecHorizonCmd(rn.Mem, &op, memTimes, &rn.TokMem, &rn.Res.Probs)
+		so = ExecHorizonCmd(rn.Sql, &op, sqlTimes, &rn.TokSql, &rn.Res.Probs)
+	case KindBackdate:
+		if err := Backdate(rn.Sql); err != nil {
+			rn.Res.Probs = append(rn.Res.Probs, Problem{"harness: backdating failed: " + err.Error()})
+		}
+		for i := range rn.Times {
+			rn.Times[i].Backdated = true
+		}
 	}
 	rn.Res.Ops = append(rn.Res.Ops, op)
 	rn.Res.Mem = append(rn.Res.Mem, mo)
